@@ -52,6 +52,7 @@ type FuncAlt struct {
 	fn    *ssa.Function // nil ⇒ nil func
 	binds []Value
 	bound Value // receiver for bound-method closures handled via fn (ssa makes wrappers)
+	native func(x *Exec, fr *Frame, args []Value) Value // engine-implemented function value (e.g. the sort swapper)
 }
 type VFunc struct{ alts []FuncAlt }
 
@@ -67,6 +68,7 @@ type VIter struct {
 	m     VRef
 	pos   int
 	alt   int
+	seen  map[string]bool
 	isStr bool
 	str   string
 }
@@ -440,6 +442,8 @@ func mergeVal(g *Term, a, b Value) Value {
 		return VTuple{e}
 	case VOpaque:
 		return a
+	case VNative:
+		return a
 	case *VIter:
 		return a
 	}
@@ -483,7 +487,7 @@ func normFunc(alts []FuncAlt) VFunc {
 		found := false
 		for i := range out {
 			o := &out[i]
-			if o.fn == a.fn && sameBinds(o.binds, a.binds) {
+			if o.native == nil && a.native == nil && o.fn == a.fn && sameBinds(o.binds, a.binds) {
 				o.g = mkOr(o.g, a.g)
 				found = true
 				break
@@ -699,7 +703,7 @@ func iteLeaves(t *Term) ([]*Term, bool) {
 	var out []*Term
 	var rec func(t *Term, d int) bool
 	rec = func(t *Term, d int) bool {
-		if d > 12 {
+		if d > 6 || len(out) > 16 {
 			return false
 		}
 		if t.isConst() {
